@@ -399,11 +399,60 @@ class AsyncioShim:
 
     get_running_loop = get_event_loop
 
+    def Queue(self, maxsize=0):
+        return MiniQueue(self._loop)
+
     def current_task(self, loop=None):
         return self._loop.current
 
     def __getattr__(self, name):
         return getattr(asyncio, name)
+
+
+class MiniQueue:
+    """asyncio.Queue contract on the MiniLoop (FIFO, unbounded)"""
+
+    def __init__(self, loop):
+        self._loop = loop
+        self._items = []
+        self._getters = []
+        self._unfinished = 0
+        self._joiners = []
+
+    def qsize(self):
+        return len(self._items)
+
+    def put_nowait(self, item):
+        self._items.append(item)
+        self._unfinished += 1
+        while self._getters:
+            g = self._getters.pop(0)
+            if not g.done():
+                g.set_result(None)
+                break
+
+    async def get(self):
+        while not self._items:
+            f = self._loop.create_future()
+            self._getters.append(f)
+            await f
+        return self._items.pop(0)
+
+    def task_done(self):
+        if self._unfinished <= 0:
+            raise ValueError('task_done() called too many times')
+        self._unfinished -= 1
+        if self._unfinished == 0:
+            for j in self._joiners:
+                if not j.done():
+                    j.set_result(None)
+            self._joiners = []
+
+    async def join(self):
+        if self._unfinished > 0:
+            f = self._loop.create_future()
+            self._joiners.append(f)
+            await f
 
 
 class Suspend:
